@@ -60,6 +60,8 @@ func main() {
 		runEngine(*out, *seed, *n)
 	case "sm":
 		runSM(*out, *seed, *n)
+	case "engx":
+		runEngineExhaustive(*out, *part, *parts)
 	case "smx":
 		runSMExhaustive(*out, *smMax, *smLen, *part, *parts)
 	case "rg":
